@@ -170,6 +170,8 @@ type Interp struct {
 	TimerAnywhere bool
 	race         raceState
 	keyCount     int
+	negKeys      map[int]int
+	roCells      map[*Value]bool
 	pkgInited    map[*ssa.Package]bool
 	atlas        map[string]*atlasEntry
 	CrossSink    func(script, expect string)
@@ -194,6 +196,8 @@ func (in *Interp) resetRun() {
 	in.pkgInited = map[*ssa.Package]bool{}
 	in.atlas = map[string]*atlasEntry{}
 	in.keyCount = 0
+	in.negKeys = nil
+	in.roCells = nil
 	in.race = raceState{cells: map[interface{}]*shadow{}, objVC: map[interface{}]*vclock{}, reported: map[string]bool{}}
 	in.exploreOff = false
 	in.inputs = nil
@@ -709,6 +713,9 @@ func (in *Interp) step(g *G) {
 		if p.R == nil {
 			in.goPanic(g, "nil pointer dereference (store)")
 			return
+		}
+		if in.roCells != nil && in.roCells[p.R.(*Value)] {
+			unsupported("store into a byte of an opaque byte string")
 		}
 		in.raceTouch(p.R.(*Value), true)
 		*(p.R.(*Value)) = copyVal(in.get(fr, ins.Val))
